@@ -5,6 +5,8 @@
 //!     fund 0: plenty of cardinals; 1/2/3: the first cardinal (the sat's output, 400 sat) cannot pay
 //!     and the next output is runic / inscribed / locked, a large cardinal follows; 4/5/6: the same
 //!     without the large cardinal -> the planner must refuse (obs [-3])
+//!     fund 7: end to end through the real command `ord wallet batch` (satpoints mode) against the
+//!     mock node and an in-process ord server; the satpoint outputs are the wallet's large outputs
 //!     mode 0 same-sat, 1 satpoints, 2 separate-outputs, 3 shared-output
 //! obs  nOut values.. nPtr pointers.. (vout offset)*n  rune(0 | 1 vout)  nInputs commitInputIndex
 //!
@@ -96,7 +98,7 @@ pub fn run(line: &Line) -> Outcome {
       "plain"
     }
   );
-  guarded(&cat.clone(), move || match run_case(&case) {
+  guarded(&cat.clone(), move || match if case.fund == 7 { run_e2e(&case) } else { run_case(&case) } {
     Ok((obs, oracle)) => Outcome { obs, oracle, cat },
     // a wallet whose cardinal outputs (400 sat) cannot fund the batch must be refused
     Err(e) if case.fund >= 4 && e.starts_with("planner:") => {
@@ -411,6 +413,208 @@ fn run_case(case: &Case) -> Result<(Line, Result<(), String>), String> {
   Ok((l.done(), oracle))
 }
 
+/// The real command: `ord wallet batch --batch <file> --fee-rate 3` run in-process (hook
+/// ord::verif::walletx) against the mock node and an in-process `ord server` on a real index.
+/// The wallet owns (in outpoint order) the satpoint outputs (100k+ sat each, the best candidates
+/// for funding), the parents' outputs and one 30k-sat cardinal; every other wallet output
+/// (coinbases) is locked in the node. The transactions the command broadcast are taken from the
+/// node's mempool.
+fn run_e2e(case: &Case) -> Result<(Line, Result<(), String>), String> {
+  use ord::verif::walletx as hook;
+  let core = ordkit::regtest_core();
+  let dir = tempfile::tempdir().map_err(|e| e.to_string())?;
+  core.mine_blocks(1);
+  let coinbase = core.tx(1, 0);
+  let wallet_script = core.state().new_address(false).script_pubkey();
+  let n = case.n;
+  let mut outputs: Vec<TxOut> = Vec::new();
+  for v in case.sats.iter().take(n) {
+    outputs.push(TxOut { value: Amount::from_sat(*v), script_pubkey: wallet_script.clone() });
+  }
+  let mut position: u64 = case.sats.iter().take(n).sum();
+  let mut builder = bitcoin::script::Builder::new();
+  for (j, (v, off)) in case.parents.iter().enumerate() {
+    let inscription = ord::Inscription {
+      content_type: Some(b"text/plain".to_vec()),
+      body: Some(format!("parent {j}").into_bytes()),
+      pointer: Some(ord::Inscription::pointer_value(position + off)),
+      ..Default::default()
+    };
+    builder = inscription.append_reveal_script_to_builder(builder);
+    outputs.push(TxOut { value: Amount::from_sat(*v), script_pubkey: wallet_script.clone() });
+    position += v;
+  }
+  outputs.push(TxOut { value: Amount::from_sat(30_000), script_pubkey: wallet_script.clone() });
+  let mut witness = Witness::new();
+  if !case.parents.is_empty() {
+    witness.push(builder.into_script().as_bytes());
+    witness.push([]);
+  }
+  let setup = Transaction {
+    version: Version(2),
+    lock_time: LockTime::ZERO,
+    input: vec![TxIn {
+      previous_output: OutPoint { txid: coinbase.compute_txid(), vout: 0 },
+      script_sig: ScriptBuf::new(),
+      sequence: Sequence::MAX,
+      witness,
+    }],
+    output: outputs.clone(),
+  };
+  let setup_txid = setup.compute_txid();
+  core.state().mempool.push(setup);
+  core.mine_blocks(1);
+  core.lock(OutPoint { txid: core.tx(2, 0).compute_txid(), vout: 0 });
+  let mut utxos: BTreeMap<OutPoint, TxOut> = BTreeMap::new();
+  for (i, o) in outputs.iter().enumerate() {
+    utxos.insert(OutPoint { txid: setup_txid, vout: i as u32 }, o.clone());
+  }
+  let sat_outpoints: Vec<OutPoint> = (0..n).map(|i| OutPoint { txid: setup_txid, vout: i as u32 }).collect();
+  let parent_ids: Vec<InscriptionId> =
+    (0..case.parents.len()).map(|j| InscriptionId { txid: setup_txid, index: j as u32 }).collect();
+
+  std::fs::create_dir_all(dir.path().join("server")).map_err(|e| e.to_string())?;
+  std::fs::create_dir_all(dir.path().join("cli")).map_err(|e| e.to_string())?;
+  let server = hook::spawn_server(&format!(
+    "ord --regtest --bitcoin-rpc-url {} --cookie-file {} --bitcoin-data-dir {} --datadir {} --index-runes server --no-sync --http-port 0 --address 127.0.0.1",
+    core.url(),
+    core.cookie_file().display(),
+    dir.path().join("server").display(),
+    dir.path().join("server").display(),
+  ));
+  let cli = |args: &[&str]| -> Result<bool, String> {
+    server.update()?;
+    let mut v: Vec<String> = vec![
+      "ord".into(),
+      "--regtest".into(),
+      "--index-runes".into(),
+      "--bitcoin-rpc-url".into(),
+      core.url(),
+      "--cookie-file".into(),
+      core.cookie_file().display().to_string(),
+      "--datadir".into(),
+      dir.path().join("cli").display().to_string(),
+      "wallet".into(),
+      "--server-url".into(),
+      server.url(),
+    ];
+    v.extend(args.iter().map(|s| s.to_string()));
+    hook::run_cli(&v)
+  };
+  let result = (|| -> Result<(Line, Result<(), String>), String> {
+    cli(&["create"]).map_err(|e| format!("wallet create: {e}"))?;
+    // the batch file
+    let mut yaml = String::from("mode: satpoints\n");
+    if !parent_ids.is_empty() {
+      yaml.push_str("parents:\n");
+      for id in &parent_ids {
+        yaml.push_str(&format!("- {id}\n"));
+      }
+    }
+    yaml.push_str("inscriptions:\n");
+    for i in 0..n {
+      let path = dir.path().join(format!("inscription{i}.txt"));
+      std::fs::write(&path, format!("child {i}")).map_err(|e| e.to_string())?;
+      yaml.push_str(&format!("- file: {}\n  satpoint: {}:0\n", path.display(), sat_outpoints[i]));
+    }
+    let batch_path = dir.path().join("batch.yaml");
+    std::fs::write(&batch_path, yaml).map_err(|e| e.to_string())?;
+    let before = core.mempool().len();
+    cli(&["batch", "--batch", &batch_path.display().to_string(), "--fee-rate", "3", "--no-backup"])
+      .map_err(|e| format!("planner: ord wallet batch: {e}"))?;
+    let mempool = core.mempool();
+    let new: Vec<Transaction> = mempool[before..].to_vec();
+    if new.len() != 2 {
+      return Err(format!("the command broadcast {} transactions", new.len()));
+    }
+    let (commit, reveal) = if new[1].input.iter().any(|i| i.previous_output.txid == new[0].compute_txid()) {
+      (new[0].clone(), new[1].clone())
+    } else {
+      (new[1].clone(), new[0].clone())
+    };
+    let reveal_txid = reveal.compute_txid();
+    let np = case.parents.len();
+
+    // S
+    let oracle = (|| -> Result<(), String> {
+      for i in &commit.input {
+        if sat_outpoints.contains(&i.previous_output) {
+          return Err(format!(
+            "the commit transaction spends {}, the output the reveal is to inscribe (commit and reveal double-spend it)",
+            i.previous_output
+          ));
+        }
+        if i.previous_output != (OutPoint { txid: setup_txid, vout: (n + np) as u32 }) {
+          return Err(format!("the commit transaction spends {} which is not the wallet's cardinal output", i.previous_output));
+        }
+      }
+      for (i, o) in sat_outpoints.iter().enumerate() {
+        if reveal.input.get(np + i).map(|x| x.previous_output) != Some(*o) {
+          return Err(format!("reveal input {} is not satpoint {i}'s output", np + i));
+        }
+      }
+      let mut spent = BTreeSet::new();
+      for i in commit.input.iter().chain(reveal.input.iter()) {
+        if !spent.insert(i.previous_output) {
+          return Err(format!("{} is spent twice by commit and reveal", i.previous_output));
+        }
+      }
+      // the node signed the wallet inputs: strip those witnesses for the script-path check
+      let mut bare = reveal.clone();
+      for (k, i) in bare.input.iter_mut().enumerate() {
+        if k != np + n {
+          i.witness = Witness::new();
+        }
+      }
+      verify_reveal_spend(&bare, &commit, &utxos)?;
+      core.mine_blocks(1);
+      if !core.mempool().is_empty() {
+        return Err("the mock node did not mine both transactions".into());
+      }
+      server.update()?;
+      for i in 0..n {
+        let id = InscriptionId { txid: reveal_txid, index: i as u32 };
+        let want = SatPoint { outpoint: OutPoint { txid: reveal_txid, vout: (np + i) as u32 }, offset: 0 };
+        let got = server.index.get_inscription_satpoint_by_id(id).map_err(|e| e.to_string())?;
+        if got != Some(want) {
+          return Err(format!("inscription {i} indexed at {got:?}, the command reports {want}"));
+        }
+      }
+      for (j, id) in parent_ids.iter().enumerate() {
+        let want = SatPoint { outpoint: OutPoint { txid: reveal_txid, vout: j as u32 }, offset: case.parents[j].1 };
+        let got = server.index.get_inscription_satpoint_by_id(*id).map_err(|e| e.to_string())?;
+        if got != Some(want) {
+          return Err(format!("parent {j} indexed at {got:?}, expected {want}"));
+        }
+      }
+      Ok(())
+    })();
+
+    // observation in the format of the hooked cases; the reported locations are what
+    // Plan::output prints for satpoints mode: (parents + i, 0)
+    let mut l = L::new();
+    l.push(reveal.output.len());
+    for o in &reveal.output {
+      l.push(o.value.to_sat());
+    }
+    let envelopes = ord::ParsedEnvelope::from_transaction(&reveal);
+    l.push(envelopes.len());
+    for e in &envelopes {
+      l.push(e.payload.pointer().unwrap_or(u64::MAX));
+    }
+    for i in 0..n {
+      l.push(np + i);
+      l.push(0u8);
+    }
+    l.push(0u8);
+    l.push(reveal.input.len());
+    l.push(reveal.input.iter().position(|i| i.previous_output.txid == commit.compute_txid()).unwrap_or(usize::MAX >> 8));
+    Ok((l.done(), oracle))
+  })();
+  server.shutdown();
+  result
+}
+
 /// Consensus validity of the reveal's commit input, checked directly: witness = [signature,
 /// reveal script, control block]; the control block must commit the script to the commit
 /// output's taproot key, and the signature must be a valid BIP-340 signature, by the key the
@@ -514,6 +718,20 @@ pub fn gen(rng: &mut Rng, tier: &str) -> Vec<Line> {
     let etching = rng.chance(1, 3);
     let premine = etching && rng.chance(2, 3);
     v.push(Case { mode, n, postage, etching, premine, parents, sats, fund }.line());
+  }
+  // end to end through `ord wallet batch`, satpoints mode, 1-3 satpoints, with and without parents
+  let n_e2e = if tier == "thorough" { 24 } else { 4 };
+  for k in 0..n_e2e {
+    let n = 1 + k % 3;
+    let np = if k % 2 == 0 { 0 } else { 1 + (k / 2) % 2 };
+    let parents: Vec<(u64, u64)> = (0..np)
+      .map(|_| {
+        let val = *rng.pick(&[546u64, 10_000, 12_345]);
+        (val, *rng.pick(&[0, 1, val - 1]))
+      })
+      .collect();
+    let sats: Vec<u64> = (0..n).map(|_| 100_000 + rng.below(50_000)).collect();
+    v.push(Case { mode: 1, n, postage: 0, etching: false, premine: false, parents, sats, fund: 7 }.line());
   }
   v
 }
